@@ -300,7 +300,7 @@ func runC09(p *Prog, r *Report) {
 		v := st[0].Args[0]
 		okv := strings.TrimSuffix(v, "#0") + "#1"
 		dom := map[string][]int64{v: {-1, 0, 1, 2, 254, 255, 256, 257}, okv: {1}}
-		res := ComparePred(st[0].In.Block(), dom, []string{`arg1 == "TTL"`, okv}, func(env map[string]int64) bool { return env[v] >= 1 && env[v] <= 255 })
+		res := ComparePred(predBlock(st[0]), dom, []string{`arg1 == "TTL"`, okv}, func(env map[string]int64) bool { return env[v] >= 1 && env[v] <= 255 })
 		switch {
 		case res.Undec != "":
 			r.Unk(R, key, p.InstrPos(st[0].In), "cannot evaluate the accepted range: "+res.Undec)
@@ -401,7 +401,7 @@ func runC09(p *Prog, r *Report) {
 		if len(bad) == 1 {
 			i1, i2 := litSubst("$info1", bind), litSubst("$info2", bind)
 			dom := map[string][]int64{i1 + ".Self": {1, 2}, i1 + ".Peer": {1, 2}, i2 + ".Self": {1, 2}, i2 + ".Peer": {1, 2}}
-			res := ComparePred(bad[0].In.Block(), dom, []string{litSubst("φs1 != nil", bind), litSubst("φs2 != nil", bind), "arg1 != nil", "arg2 != nil"}, func(env map[string]int64) bool {
+			res := ComparePred(predBlock(bad[0]), dom, []string{litSubst("φs1 != nil", bind), litSubst("φs2 != nil", bind), "arg1 != nil", "arg2 != nil"}, func(env map[string]int64) bool {
 				return env[i1+".Self"] != env[i2+".Peer"] || env[i2+".Self"] != env[i1+".Peer"]
 			})
 			r.Check(res.OK && res.Undec == "", R, "mismatch-predicate", p.InstrPos(bad[0].In), "ErrBadProto iff the sockets are not each other's peer", "Device's protocol-compatibility test is wrong: "+res.Counter+res.Undec)
